@@ -148,6 +148,13 @@ def placements(e: str, nl: str) -> list[tuple[str, str]]:
         ("ternary-left", "{{ " + e + nl + " if g else 'no' }}"),
         ("ternary-alt", "{{ 'no' if h" + nl + " else " + e + " }}"),
         ("tstr", "{{ 'pre ${ " + e.replace("'", '"') + " } post' }}"),
+        # the site sits inside a template string that is a filter ARGUMENT, at every filter position of an inline condition
+        ("arg-tstr", "{{ 'x' | append: \"${ " + e.replace("'", '"').replace('"', "'") + " }\"" + nl + " }}"),
+        ("noelse-tail-arg-tstr", "{{ 'x' if g" + nl + " || append: \"${ " + e + " }\" }}"),
+        ("else-tail-arg-tstr", "{{ 'x' if g else 'y' ||" + nl + " append: \"${ " + e + " }\" }}"),
+        ("alt-arg-tstr", "{{ 'x' if h else 'y' | append: \"${ " + e + " }\"" + nl + " }}"),
+        ("left-arg-tstr-noelse", "{{ 'x' | append: \"${ " + e + " }\" if g" + nl + " }}"),
+        ("cond-tstr-noelse", "{{ 'x' if \"${ " + e + " }\"" + nl + " }}"),
         ("if-body", "{% if g %}" + nl + "{{ " + e + " }}{% endif %}"),
         ("for-body", "{% for i in (1..2) %}{{ " + e + " }}" + nl + "{% endfor %}"),
         ("case-body", "{% case g %}{% when 1 %}{{ " + e + " }}{% else %}" + nl + "{{ " + e + " }}{% endcase %}"),
@@ -188,7 +195,7 @@ def site_markups(m: str, tier: str) -> list[tuple[str, str, dict[str, str]]]:
                     if nl:
                         continue
                     out.append((f"{elabel}@{plabel}", src, {"part": "line1\n{{ " + e + " }}"}))
-                elif plabel in ("tstr", "liquid", "with-arg") and nl:
+                elif (plabel in ("tstr", "liquid", "with-arg") or plabel.endswith("tstr") or plabel.endswith("tstr-noelse")) and nl:
                     continue
                 else:
                     if tier == "quick" and nl and plabel not in ("output", "echo", "assign", "ternary-alt"):
@@ -261,22 +268,31 @@ def run_program(pieces: list[tuple[str, str]], partials: dict[str, str], data: d
     except Exception as e:  # noqa: BLE001
         out.append((f"C15:extract_from_templates-raises:{type(e).__name__}", {"source": source}, f"{type(e).__name__}: {e}"))
     # dynamic side: synchronous and asynchronous renders (the tags and filters have separate asynchronous twins)
+    # (the same parsed template is rendered three times: every one of the renders' lookups must be covered, and a
+    # render must ask for what the first one asked for)
     cat = Catalog()
-    try:
-        t_main.render(translations=cat, **data)
-    except LiquidError:
-        pass
-    except Exception as e:  # noqa: BLE001
-        if res is not None:
-            res.count("foreign:" + type(e).__name__)
+    per_render: list[list[tuple]] = []
+    for _rep in range(3):
+        n0 = len(cat.calls)
+        try:
+            t_main.render(translations=cat, **data)
+        except LiquidError:
+            pass
+        except Exception as e:  # noqa: BLE001
+            if res is not None:
+                res.count("foreign:" + type(e).__name__)
+        per_render.append(cat.calls[n0:])
+    if any(r != per_render[0] for r in per_render[1:]):
+        out.append(("C15:repeated-render-makes-different-lookups", {"source": source, "partials": partials, "data": _show(data)}, {"renders": [r[:6] for r in per_render]}))
     cat_a = Catalog()
-    kind_a, val_a = run_solo(t_main.render_async(translations=cat_a, **data))
-    if kind_a != "ok" and not isinstance(val_a, LiquidError) and res is not None:
-        res.count("foreign-async:" + type(val_a).__name__)
+    for _rep in range(3):
+        kind_a, val_a = run_solo(t_main.render_async(translations=cat_a, **data))
+        if kind_a != "ok" and not isinstance(val_a, LiquidError) and res is not None:
+            res.count("foreign-async:" + type(val_a).__name__)
     if cat_a.calls != cat.calls:
         out.append(("C15:async-render-makes-different-lookups", {"source": source, "partials": partials, "data": _show(data)}, {"sync": cat.calls[:6], "async": cat_a.calls[:6]}))
     if res is not None:
-        res.evaluations += 2
+        res.evaluations += 6
     literal_ids = set(spans)
     looked = False
     for fn, msg in cat.calls:
